@@ -302,6 +302,33 @@ def run(check):
       else:
         r_bk.ok('%s: self.%s updated on every store path that adds a metric' % (sc.name, a), so.loc())
 
+  # a metric is filed in one place only: when store() files it under its new count, the previous filing goes in the same call
+  for sc in subs:
+    ci, so = sc.methods.get('choose_item'), sc.methods.get('store')
+    if ci is None or so is None or len(so.params) < 2:
+      continue
+    mp = so.params[1]
+    files = [c for c in walk_no_nested(so.node, include_self=False) if isinstance(c, ast.Call) and isinstance(c.func, ast.Attribute) and
+             c.func.attr in ('append', 'insert', 'add') and isinstance(c.func.value, ast.Subscript) and
+             (dotted(c.func.value.value) or '').startswith('self.') and any(isinstance(a, ast.Name) and a.id == mp for a in c.args)]
+    if not files:
+      continue
+    struct = dotted(files[0].func.value.value)
+    unfiles = [c for c in walk_no_nested(so.node, include_self=False) if isinstance(c, ast.Call) and isinstance(c.func, ast.Attribute) and
+               c.func.attr in ('remove', 'discard') and isinstance(c.func.value, ast.Subscript) and dotted(c.func.value.value) == struct and
+               any(isinstance(a, ast.Name) and a.id == mp for a in c.args)]
+    if unfiles:
+      r_bk.ok('%s.store moves the metric: filed under the new count, removed from the previous one' % sc.name, so.loc(unfiles[0]))
+    else:
+      validated = any(isinstance(x, ast.Compare) and 'len(' in unparse(x) and 'self.cache[' in unparse(x) for x in ast.walk(ci.node))
+      if validated:
+        r_bk.cannot_decide('%s: store() leaves earlier filings of a metric in %s and choose_item() validates entries by their count: '
+                           'lazy deletion is not decided by this rule' % (sc.name, struct))
+      else:
+        r_bk.violate('%s files a metric more than once' % sc.name, so, files[0], '%s.store files the metric in %s under its new count '
+                     'without removing its previous filing: a left-over entry of a metric that was drained and stored again is taken for a '
+                     'current one, and choose_item() hands out a metric that does not hold the maximum' % (sc.name, struct))
+
 
 def _false_at_zero_lag(test, lag_names):
   """the test is false when MIN_TIMESTAMP_LAG is 0: truthiness of the lag, `lag > 0`, `lag != 0` (possibly one conjunct)"""
